@@ -118,7 +118,8 @@ def make_event(rng, kind, day):
     if kind == "et0_spike":
         return {"kind": kind, "day": day, "len": rng.randint(1, 10), "mag": round(rng.uniform(8, 14), 1)}
     if kind == "et0_floor":
-        return {"kind": kind, "day": day, "len": rng.randint(1, 10), "mag": 0.1}
+        # calm, humid days: down to the floor prepare_weather applies (0.1), and below it for tables built by hand
+        return {"kind": kind, "day": day, "len": rng.randint(1, 10), "mag": rng.choice([0.1, 0.1, 0.05, 0.02])}
     raise ValueError(kind)
 
 
@@ -147,5 +148,5 @@ def inject(w, ev):
         elif k == "et0_spike":
             w["et0"][i] = ev["mag"]
         elif k == "et0_floor":
-            w["et0"][i] = 0.1
+            w["et0"][i] = float(ev.get("mag") or 0.1)
     return max(0, b - a)
